@@ -18,7 +18,7 @@ use std::{
     time::Instant,
 };
 
-use parking_lot::RwLock;
+use crate::sync_compat::RwLock;
 use rustc_hash::FxHasher;
 use serde::{Deserialize, Serialize};
 
